@@ -13,9 +13,10 @@ GROUP = {
         ("text", "chrono.rs"),
         ("text", "camt_stub.rs"),
         U("OwnedAmount(type)", AM, [r"pub struct OwnedAmount\b"]),
-        ("raw", "pub mod xmlnode {\nuse super::*;\npub use super::xmlnode_stub::{DateHolder, Entry};\n"),
+        ("raw", "pub mod xmlnode {\nuse super::*;\npub use super::xmlnode_stub::{DateHolder, Entry, CreditDebitIndicator, References, TransactionDetails, Statement, Balance, BalanceType, CodeOrProperty, BalanceCodeValue};\n"),
         U("xmlnode::CreditOrDebit", XN, [r"pub enum CreditOrDebit\b"], derive="Clone, Copy"),
         U("xmlnode::Amount", XN, [r"pub struct Amount\b"]),
+        U("xmlnode::BalanceCode", XN, [r"pub enum BalanceCode\b"], derive="PartialEq, Eq, Clone, Copy"),
         ("raw", "}\n"),
         U("xmlnode::Amount::to_data", CA, [r"impl xmlnode::Amount\b", r"fn to_data\b"], fn="to_data", wrap=("impl xmlnode::Amount {", "}"),
           rewrites=[RET()],
@@ -35,6 +36,7 @@ GROUP = {
         ensures
             // C18: the booking date becomes the effective date only when it differs from the transaction (value) date
             // (the result is `self` handed back for chaining: its value at return time is what the caller continues with)
+            *final(self) == *final(r),   // the reference handed back IS self: what the caller does through it ends up in self
             r.date == old(self).date,
             r.effective_date == (if old(self).date.day() != effective_date.day() { Some(effective_date) } else { old(self).effective_date }),   // @Txn.effective_date.only_when_different
             r.amount == old(self).amount, r.balance == old(self).balance, r.payee == old(self).payee,
@@ -46,5 +48,130 @@ GROUP = {
             // C18: transactions are dated by the value date, by the booking date when the entry has none
             r == (match self.value_date { Some(v) => v.date(), None => self.booking_date.date() }),   // @guess_value_date.value_date_else_booking_date
 """),
+        # ---- the Txn setters the importer uses (trivial bodies, extracted so that the slices below are checked against what they really do)
+        U("Txn::new", SE, [r"impl Txn\b", r"pub fn new\b"], fn="new", wrap=("impl Txn {", "}"), rewrites=[RET()],
+          contract="""
+        ensures r.date == date, r.amount == amount, r.effective_date is None, r.balance is None, r.dest_account is None, r.clear_state is None, r.code is None,
+            r.transferred_amount is None, r.charges@.len() == 0, r.comments@.len() == 0,   // @Txn.new.only_date_payee_amount
+"""),
+        U("Txn::dest_account_option", SE, [r"impl Txn\b", r"pub fn dest_account_option<'a>"], fn="dest_account_option", wrap=("impl Txn {", "}"),
+          rewrites=[RET(), ("R24-std-model", "dest_account.map(str::to_string)", "opt_str_to_string(dest_account)", 1)],
+          contract="""
+        ensures *final(self) == *final(r), *r == (Txn { dest_account: r.dest_account, ..*old(self) }), r.dest_account is Some <==> dest_account is Some,
+            r.dest_account matches Some(x) ==> x@ == dest_account->Some_0@,   // @Txn.dest_account_option.sets_only_the_counter_account
+"""),
+        U("Txn::dest_account", SE, [r"impl Txn\b", r"pub fn dest_account<'a>"], fn="dest_account", wrap=("impl Txn {", "}"),
+          rewrites=[RET(), ("R24-std-model", "Some(dest_account.to_string())", "Some(str_to_string(dest_account))", 1)],
+          contract="""
+        ensures *final(self) == *final(r), *r == (Txn { dest_account: r.dest_account, ..*old(self) }), r.dest_account matches Some(x) && x@ == dest_account@,
+"""),
+        U("Txn::code_option", SE, [r"impl Txn\b", r"pub fn code_option<'a>"], fn="code_option", wrap=("impl Txn {", "}"),
+          rewrites=[RET(), ("R24-std-model", "code.map(str::to_string)", "opt_str_to_string(code)", 1)],
+          contract="""
+        ensures *final(self) == *final(r), *r == (Txn { code: r.code, ..*old(self) }), r.code is Some <==> code is Some,
+"""),
+        U("Txn::clear_state", SE, [r"impl Txn\b", r"pub fn clear_state\b"], fn="clear_state", wrap=("impl Txn {", "}"), rewrites=[RET()],
+          contract="""
+        ensures *final(self) == *final(r), *r == (Txn { clear_state: Some(clear_state), ..*old(self) }),
+"""),
+        U("Txn::balance", SE, [r"impl Txn\b", r"pub fn balance\b"], fn="balance", wrap=("impl Txn {", "}"), rewrites=[RET()],
+          contract="""
+        ensures *final(self) == *final(r), *r == (Txn { balance: Some(balance), ..*old(self) }),   // @Txn.balance.sets_only_the_assertion
+"""),
+        # ---- statement slices of iso_camt053::import (the function as a whole - serde model, Either of two iterators, extractor - is outside Verus)
+        U("callsite:import.entry_without_details", CA, [r"pub fn import<R>"], fn="entry_txn", no_canary=True,
+          slice=r"if entry\.details\.transactions\.is_empty\(\) \{\s*(?://[^\n]*\n\s*)*(let amount = [^;]*;)[\s\S]*?(let mut txn = single_entry::Txn::new\([^;]*;)\s*(txn\s*\.effective_date\([^;]*;)", slice_count=1, slice_raw=True, slice_groups="all",
+          rewrites=[("R1-path", "single_entry::Txn::new(", "Txn::new(", 1)],
+          slice_template="""fn entry_txn(entry: &xmlnode::Entry, fragment: &Fragment) -> (txn: Txn)
+    ensures
+        // C18: an entry without details becomes one transaction: the account moves by +amount for a credit entry and -amount for a debit entry,
+        txn.amount.value.val() == (if entry.credit_or_debit.value is Credit { entry.amount.value.val() } else { -entry.amount.value.val() }),   // @import.entry_amount_signed_by_the_entry_indicator
+        txn.amount.commodity@ == entry.amount.currency@,
+        // dated by value date (booking date when there is none), the booking date as effective date when different
+        txn.date == (match entry.value_date { Some(v) => v.date(), None => entry.booking_date.date() }),   // @import.entry_dated_by_value_date
+        txn.effective_date == (if txn.date.day() != entry.booking_date.date().day() { Some(entry.booking_date.date()) } else { None::<NaiveDate> }),   // @import.entry_booking_date_is_the_effective_date_when_different
+        txn.balance is None,
+{
+    {EXPR}
+    txn
+}"""),
+        U("callsite:import.detail_of_a_batched_entry", CA, [r"pub fn import<R>"], fn="detail_txn", no_canary=True,
+          slice=r"for transaction in &entry\.details\.transactions \{\s*(let amount = [^;]*;)[\s\S]*?(let code = [^;]*;)[\s\S]*?(let mut txn = single_entry::Txn::new\([^;]*;)\s*(txn\s*\.effective_date\([^;]*;)", slice_count=1, slice_raw=True, slice_groups="all",
+          rewrites=[("R1-path", "single_entry::Txn::new(", "Txn::new(", 1), ("R24-std-model", "transaction.refs.account_servicer_reference.as_deref()", "opt_string_as_deref(&transaction.refs.account_servicer_reference)", 1)],
+          slice_template="""fn detail_txn(entry: &xmlnode::Entry, transaction: &xmlnode::TransactionDetails, fragment: &Fragment) -> (txn: Txn)
+    ensures
+        // C18: every detail of a batched entry becomes one transaction, signed by the DETAIL's own credit / debit indicator,
+        txn.amount.value.val() == (if transaction.credit_or_debit.value is Credit { transaction.amount.value.val() } else { -transaction.amount.value.val() }),   // @import.detail_amount_signed_by_its_own_indicator
+        txn.amount.commodity@ == transaction.amount.currency@,
+        // dated like its entry: value date (else booking date), booking date as effective date when different
+        txn.date == (match entry.value_date { Some(v) => v.date(), None => entry.booking_date.date() }),   // @import.detail_dated_like_its_entry
+        txn.effective_date == (if txn.date.day() != entry.booking_date.date().day() { Some(entry.booking_date.date()) } else { None::<NaiveDate> }),
+        txn.balance is None,
+{
+    {EXPR}
+    txn
+}"""),
+        U("callsite:import.opening_balance_transaction", CA, [r"pub fn import<R>"], fn="opening_txn", no_canary=True,
+          slice=r"if let Some\(first\) = stmt\.entries\.first\(\) \{\s*(let mut txn = single_entry::Txn::new\([^;]*;\s*txn\.dest_account\([^;]*;\s*txn\.balance\([^;]*;)", slice_count=1, slice_raw=True,
+          rewrites=[("R1-path", "single_entry::Txn::new(", "Txn::new(", 1)],
+          slice_template="""fn opening_txn(first: &xmlnode::Entry, opening_balance: OwnedAmount) -> (txn: Txn)
+    ensures
+        // C18: the opening-balance transaction moves nothing and asserts the opening balance, dated like the first entry
+        txn.amount.value.val() == 0real, txn.amount.commodity@ == opening_balance.commodity@,   // @import.opening_transaction_moves_nothing
+        txn.balance == Some(opening_balance),                                                      // @import.opening_transaction_asserts_the_opening_balance
+        txn.date == (match first.value_date { Some(v) => v.date(), None => first.booking_date.date() }),
+        txn.dest_account matches Some(a) && a@ == "Equity:Adjustments"@,
+{
+    {EXPR}
+    txn
+}"""),
+        U("callsite:import.pending_unless_cleared", CA, [r"pub fn import<R>"], fn="mark_pending", no_canary=True,
+          slice=r"(if !fragment\.cleared \{\s*txn\.clear_state\(syntax::ClearState::Pending\);\s*\})", slice_count=2, slice_raw=True,
+          slice_template="""fn mark_pending(txn: &mut Txn, fragment: &Fragment)
+    ensures
+        // C17/C18: the counter-posting is marked pending unless the rules cleared the record; nothing else about the transaction changes
+        final(txn).clear_state == (if fragment.cleared { old(txn).clear_state } else { Some(syntax::ClearState::Pending) }),   // @import.pending_unless_cleared
+        final(txn).amount == old(txn).amount, final(txn).date == old(txn).date, final(txn).balance == old(txn).balance,
+{
+    {EXPR}
+}"""),
+        # the closing balance is attached after all entries of the statement were converted, to the last transaction produced (textual anchor on the position)
+        U("anchor:import.closing_balance_after_the_entry_loop", CA, [r"pub fn import<R>"], no_canary=True,
+          slice=r"(res\.push\(txn\);\s*\}\s*\}\s*if let Some\(last_txn\) = res\.last_mut\(\) \{\s*if let Some\(b\) = closing_balance \{\s*last_txn\.balance\(b\);\s*\}\s*\}\s*\}\s*Ok\(res\))", slice_count=1, slice_raw=True, slice_template="/* anchor: {EXPR} */\n"),
+        U("anchor:import.rows_in_configured_order", CA, [r"pub fn import<R>"], no_canary=True,
+          slice=r"(config::RowOrder::OldToNew => Either::Left\(stmt\.entries\.iter\(\)\),\s*config::RowOrder::NewToOld => Either::Right\(stmt\.entries\.iter\(\)\.rev\(\)\),)", slice_count=1, slice_raw=True, slice_template="/* anchor: {EXPR} */\n"),
+        U("anchor:import.details_replace_the_entry", CA, [r"pub fn import<R>"], no_canary=True,
+          slice=r"(if entry\.details\.transactions\.is_empty\(\) \{)[\s\S]*?(for transaction in &entry\.details\.transactions \{)", slice_count=1, slice_raw=True, slice_groups="all", slice_template="/* anchor: {EXPR} */\n"),
+        U("anchor:import.opening_before_the_entries", CA, [r"pub fn import<R>"], no_canary=True,
+          slice=r"(if let Some\(opening_balance\) = find_balance\(&stmt, xmlnode::BalanceCode::Opening\) \{\s*if let Some\(first\) = stmt\.entries\.first\(\) \{)[\s\S]*?(let closing_balance = find_balance\(&stmt, xmlnode::BalanceCode::Closing\);\s*let entries = match)", slice_count=1, slice_raw=True, slice_groups="all", slice_template="/* anchor: {EXPR} */\n"),
+        # ---- find_balance, whole function: the FIRST balance record carrying the code, signed by its own indicator
+        ("raw", """
+// derive(PartialEq) on BalanceCode: structural equality (R13-style expansion)
+impl vstd::std_specs::cmp::PartialEqSpecImpl for xmlnode::BalanceCode {
+    open spec fn obeys_eq_spec() -> bool { true }
+    open spec fn eq_spec(&self, o: &Self) -> bool { *self == *o }
+}
+pub open spec fn first_with_code(bals: Seq<xmlnode::Balance>, code: xmlnode::BalanceCode, from: int) -> Option<int>
+    decreases bals.len() - from
+{
+    if from < 0 || from >= bals.len() { None } else if bals[from].balance_type.credit_or_property.code.value == code { Some(from) } else { first_with_code(bals, code, from + 1) }
+}
+"""),
+        U("find_balance", CA, [r"fn find_balance\b"], fn="find_balance",
+          rewrites=[RET(),
+                    ("R40-filter-map-next", "re:stmt\\.balance\\s*\\.iter\\(\\)\\s*\\.filter\\(\\|x\\| x\\.balance_type\\.credit_or_property\\.code\\.value == code\\)\\s*\\.map\\(\\|x\\| x\\.amount\\.to_data\\(x\\.credit_or_debit\\.value\\)\\)\\s*\\.next\\(\\)",
+                     "for i__ in 0..stmt.balance.len() { let x = &stmt.balance[i__]; if x.balance_type.credit_or_property.code.value == code { return Some(x.amount.to_data(x.credit_or_debit.value)); } }\n    None", 1)],
+          contract="""
+    ensures
+        // C18: the opening / closing balance is the first balance record of the statement with that code (each look-up on its own:
+        //      the order of the records does not matter), credit positive, debit negative
+        first_with_code(stmt.balance@, code, 0) is None ==> r is None,   // @find_balance.none_without_such_a_record
+        first_with_code(stmt.balance@, code, 0) matches Some(k) ==> (r matches Some(a)
+            && a.value.val() == (if stmt.balance@[k].credit_or_debit.value is Credit { stmt.balance@[k].amount.value.val() } else { -stmt.balance@[k].amount.value.val() })
+            && a.commodity@ == stmt.balance@[k].amount.currency@),   // @find_balance.first_record_with_the_code_signed_by_its_indicator
+""",
+          loops={0: """
+        invariant first_with_code(stmt.balance@, code, 0) == first_with_code(stmt.balance@, code, i__ as int),
+"""}),
     ],
 }
